@@ -642,14 +642,234 @@ Definition tcase_expected (c : tcase) : bool * list (list Q) * list (list Q) :=
       (exact_regime (tc_prec c) (tc_batches c), map (map this) (fst TC), map (map this) (snd TC))
   end.
 
+(* --------------------------------------------------------------- population / batch-size boundaries (run-length encoded batches) *)
+(* A batch is a list of (row, multiplicity): the row repeated.  Class populations and batch sizes of thousands of traces stay
+   small literals; the class sums are computed on the runs directly (weighted sums), which are the class sums of the expanded
+   batch (Proofs/Kernels.v: rl_class_sum).  Exact regime only: every run of the real code must give the same bits. *)
+Definition rlrow := (crow * positive)%type.
+Definition expand_rl (rl : list rlrow) : list crow := flat_map (fun rc => repeat (fst rc) (Pos.to_nat (snd rc))) rl.
+Definition wsum (g : crow -> Qc) (rl : list rlrow) : Qc := qsum (map (fun rc => (qz (Zpos (snd rc)) * g (fst rc))%Qc) rl).
+Definition wsum_sq_z (rl : list rlrow) : Z :=
+  fold_right (fun rc a => Zpos (snd rc) * fold_right (fun z a' => z * z + a') 0 (fst (fst rc)) + a) 0 rl.
+Definition rl_exact (p : prec) (bs : list (list rlrow)) : bool := fold_right (fun b a => wsum_sq_z b + a) 0 bs <=? 2 ^ mant_of p.
+Definition rl_len (rl : list rlrow) : Z := fold_right (fun rc a => Zpos (snd rc) + a) 0 rl.
+Definition rl_rect (S W : nat) (bs : list (list rlrow)) : bool :=
+  forallb (fun b => forallb (fun rc => Nat.eqb (length (fst (fst rc))) S && Nat.eqb (length (snd (fst rc))) W) b) bs.
+
+(* weighted class sum of f(sample s) over the rows whose word w has class p *)
+Definition rl_class_sum (e : Z) (parts : list Z) (f : Qc -> Qc) (w p s : nat) (rl : list rlrow) : Qc :=
+  wsum (fun r => if (lutz parts (nth w (snd r) 0) =? Z.of_nat p) then f (scale_q e (nth s (fst r) 0)) else Q2Qc 0) rl.
+Definition rl_total (e : Z) (parts : list Z) (f : Qc -> Qc) (w p s : nat) (bs : list (list rlrow)) : Qc :=
+  qsum (map (rl_class_sum e parts f w p s) bs).
+Definition one1 (x : Qc) : Qc := Q2Qc 1.
+
+Record bpcase := {
+  bp_prec : prec;
+  bp_parts : list Z;
+  bp_batches : list (list rlrow);
+  bp_obs : list pobs                          (* po_result takes part in the grouping only (compute() is a function of the accumulators) *)
+}.
+
+Definition bpcase_check (c : bpcase) : bool :=
+  match bp_batches c with
+  | ((r0, _) :: _) :: _ =>
+      let S := length (fst r0) in
+      let W := length (snd r0) in
+      let P := length (bp_parts c) in
+      let parts := bp_parts c in
+      let bs := bp_batches c in
+      negb (Nat.eqb S 0) && negb (Nat.eqb W 0) && negb (Nat.eqb P 0) && rl_rect S W bs
+      && rl_exact (bp_prec c) bs
+      && match bp_obs c with
+         | [o] =>
+             negb (match po_runs o with [] => true | _ => false end)
+             && forallb (krun_ok P (length bs)) (po_runs o)
+             && shape2 (po_result o) W S && shape2 (po_cnt o) W P && shape3 (po_sum o) S W P && shape3 (po_sq o) S W P
+             && all2 W P (fun w p => fv_exact (f2 (po_cnt o) w p) (rl_total 0 parts one1 w p 0%nat bs))
+             && all3 S W P (fun s w p => fv_exact (f3 (po_sum o) s w p) (rl_total 0 parts idq w p s bs)
+                                         && fv_exact (f3 (po_sq o) s w p) (rl_total 0 parts sqq w p s bs))
+         | _ => false                          (* identical when all sums are exactly representable: ONE group *)
+         end
+  | _ => false
+  end.
+
+Record btcase := {
+  bt_prec : prec;
+  bt_parts : list Z;
+  bt_batches : list (list rlrow);             (* one data word per row *)
+  bt_obs : list tobs
+}.
+
+Definition rl_tcell (parts : list Z) (bs : list (list rlrow)) (c : tcell) : Qc :=
+  match c with
+  | TCnt p => rl_total 0 parts one1 0%nat p 0%nat bs
+  | TExi p s => rl_total 0 parts idq 0%nat p s bs
+  | TExxi p i j =>
+      qsum (map (wsum (fun r => if (lutz parts (nth 0%nat (snd r) 0) =? Z.of_nat p)
+                                then Qcmult (scale_q 0 (nth i (fst r) 0)) (scale_q 0 (nth j (fst r) 0)) else Q2Qc 0)) bs)
+  end.
+
+Definition btcase_check (c : btcase) : bool :=
+  match bt_batches c with
+  | ((r0, _) :: _) :: _ =>
+      let S := length (fst r0) in
+      let P := length (bt_parts c) in
+      let parts := bt_parts c in
+      let bs := bt_batches c in
+      let st := tstate S P (rl_tcell parts bs) in
+      let TC := Template.comp parts S st in
+      let u := uq (bt_prec c) in
+      negb (Nat.eqb S 0) && negb (Nat.eqb P 0) && rl_rect S 1 bs && rl_exact (bt_prec c) bs
+      && match bt_obs c with
+         | [o] =>
+             negb (match to_runs o with [] => true | _ => false end)
+             && forallb (fun r => Nat.eqb (length (kr_choices r)) (length bs) && list_eqb Bool.eqb (kr_log r) (kr_choices r)) (to_runs o)
+             && shape2 (to_templates o) P S && shape2 (to_cov o) S S
+             && all2 P S (fun p s => let q := Template.mget (fst TC) p s in
+                                     fv_close (qz 4 * u * qabs q + Q2Qc Template.tiny)%Qc (f2 (to_templates o) p s) q)
+             && all2 S S (fun i j => fv_close (qz 64 * u * Template.cov_mag parts st i j + Q2Qc Template.tiny)%Qc
+                                              (f2 (to_cov o) i j) (Template.mget (snd TC) i j))
+         | _ => false
+         end
+  | _ => false
+  end.
+
+(* --------------------------------------------------------------- thread counts: the t-test accumulator and the MIA distinguisher *)
+(* one group of bit-identical observations with the numba thread counts that produced it *)
+Record ttobs := {
+  tt_threads : list nat;
+  tt_n : Z;                                   (* processed_traces *)
+  tt_sum : list fval; tt_sq : list fval;      (* .sum, .sum_squared *)
+  tt_mean : list fval; tt_var : list fval     (* .mean, .var after compute() *)
+}.
+Record ttcase := {
+  tt_prec : prec;
+  tt_exp : Z;
+  tt_batches : list (list (list Z));          (* the update() calls: rows of samples z, value z * 2^exp *)
+  tt_obs : list ttobs
+}.
+
+Definition ttcase_check (c : ttcase) : bool :=
+  let rows := concat (tt_batches c) in
+  match rows with
+  | [] => false
+  | r0 :: _ =>
+      let S := length r0 in
+      let n := length rows in
+      let e := tt_exp c in
+      let crows := map (fun r => (r, @nil Z)) rows in
+      let ex := exact_regime (tt_prec c) (map (map (fun r => (r, @nil Z))) (tt_batches c)) in
+      let tol := (kfac n * uq (tt_prec c))%Qc in
+      let nq := nat_q n in
+      negb (Nat.eqb S 0) && forallb (fun r => Nat.eqb (length r) S) rows
+      && negb (match tt_obs c with [] => true | _ => false end)
+      && (negb ex || match tt_obs c with [_] => true | _ => false end)
+      && forallb (fun o =>
+           negb (match tt_threads o with [] => true | _ => false end)
+           && (tt_n o =? Z.of_nat n)
+           && Nat.eqb (length (tt_sum o)) S && Nat.eqb (length (tt_sq o)) S && Nat.eqb (length (tt_mean o)) S && Nat.eqb (length (tt_var o)) S
+           && forallb (fun j =>
+                let sx := qsum (map (fun r => scale_q e (nth j r 0)) rows) in
+                let sxx := qsum (map (fun r => sqq (scale_q e (nth j r 0))) rows) in
+                let ax := col_abs e crows j in
+                let m := (sx / nq)%Qc in
+                fv_ok ex (tol * ax)%Qc (nth j (tt_sum o) NaN) sx
+                && fv_ok ex (tol * sxx)%Qc (nth j (tt_sq o) NaN) sxx
+                && fv_close (tol * ax / nq + Q2Qc Template.tiny)%Qc (nth j (tt_mean o) NaN) m
+                && fv_close (qz 2 * tol * sxx / nq + Q2Qc Template.tiny)%Qc (nth j (tt_var o) NaN) (sxx / nq - m * m)%Qc)
+              (seq 0 S)) (tt_obs c)
+  end.
+
+Record miobs := {
+  mi_threads : list nat;
+  mi_acc : list (list (list (list fval)));    (* .accumulators [sample][bin][class][word] *)
+  mi_result : list (list fval)                (* compute(): takes part in the grouping only *)
+}.
+Record micase := {
+  mi_parts : list Z;
+  mi_exp : Z;
+  mi_edges : list Z;                          (* bin edges z * 2^exp *)
+  mi_batches : list (list crow);
+  mi_obs : list miobs
+}.
+
+Definition micase_check (c : micase) : bool :=
+  let rows := all_rows (mi_batches c) in
+  match rows with
+  | [] => false
+  | r0 :: _ =>
+      let S := length (fst r0) in
+      let W := length (snd r0) in
+      let P := length (mi_parts c) in
+      let e := mi_exp c in
+      let edges := map (scale_q e) (mi_edges c) in
+      let NB := Mia.nbins edges in
+      negb (Nat.eqb S 0) && negb (Nat.eqb W 0) && negb (Nat.eqb P 0) && negb (Nat.eqb NB 0) && rect_rows S W (mi_batches c)
+      && match mi_obs c with
+         | [o] =>                               (* counts are integers: every thread count gives the same bits *)
+             negb (match mi_threads o with [] => true | _ => false end)
+             && Nat.eqb (length (mi_acc o)) S
+             && forallb (fun a => Nat.eqb (length a) NB && forallb (fun b => shape2 b P W) a) (mi_acc o)
+             && all2 S W (fun s w =>
+                  let erows := map (fun r => (scale_q e (nth s (fst r) 0), nth w (snd r) 0)) rows in
+                  all2 NB P (fun b k =>
+                    fval_eq_z (nth w (nth k (nth b (nth s (mi_acc o) []) []) []) NaN) (Mia.hist_spec edges (mi_parts c) erows b k)))
+         | _ => false
+         end
+  end.
+
 (* --------------------------------------------------------------- one case type for the harness *)
-Inductive kcase := KP (c : pcase) | KT (c : tcase).
-Definition kcase_check (c : kcase) : bool := match c with KP c => pcase_check c | KT c => tcase_check c end.
+Inductive kcase := KP (c : pcase) | KT (c : tcase) | KBP (c : bpcase) | KBT (c : btcase) | KTT (c : ttcase) | KMI (c : micase).
+Definition kcase_check (c : kcase) : bool :=
+  match c with
+  | KP c => pcase_check c | KT c => tcase_check c | KBP c => bpcase_check c | KBT c => btcase_check c
+  | KTT c => ttcase_check c | KMI c => micase_check c
+  end.
 Inductive kexpected :=
 | EP (exact : bool) (counters : list (list Q)) (sum_sumsq : list (list (list (Q * Q))))
-| ET (exact : bool) (templates cov : list (list Q)).
+| ET (exact : bool) (templates cov : list (list Q))
+| EBP (exact : bool) (counters : list (list Q)) (sum_sumsq : list (list (list (Q * Q))))
+| EBT (exact : bool) (counters : list Q) (templates cov : list (list Q))
+| ETT (exact : bool) (sum_sumsq : list (Q * Q))
+| EMI (hist : list (list (list (list Z)))).
 Definition kcase_expected (c : kcase) : kexpected :=
   match c with
   | KP c => let '(ex, cn, ss) := pcase_expected c in EP ex cn ss
   | KT c => let '(ex, t, cv) := tcase_expected c in ET ex t cv
+  | KBP c =>
+      match bp_batches c with
+      | ((r0, _) :: _) :: _ =>
+          let S := length (fst r0) in let W := length (snd r0) in let P := length (bp_parts c) in
+          EBP (rl_exact (bp_prec c) (bp_batches c))
+              (map (fun w => map (fun p => this (rl_total 0 (bp_parts c) one1 w p 0%nat (bp_batches c))) (seq 0 P)) (seq 0 W))
+              (map (fun s => map (fun w => map (fun p => (this (rl_total 0 (bp_parts c) idq w p s (bp_batches c)),
+                                                          this (rl_total 0 (bp_parts c) sqq w p s (bp_batches c)))) (seq 0 P)) (seq 0 W)) (seq 0 S))
+      | _ => EBP false [] []
+      end
+  | KBT c =>
+      match bt_batches c with
+      | ((r0, _) :: _) :: _ =>
+          let S := length (fst r0) in let P := length (bt_parts c) in
+          let sp := rl_tcell (bt_parts c) (bt_batches c) in
+          let TC := Template.comp (bt_parts c) S (tstate S P sp) in
+          EBT (rl_exact (bt_prec c) (bt_batches c)) (map (fun p => this (sp (TCnt p))) (seq 0 P)) (map (map this) (fst TC)) (map (map this) (snd TC))
+      | _ => EBT false [] [] []
+      end
+  | KTT c =>
+      let rows := concat (tt_batches c) in
+      let S := match rows with r0 :: _ => length r0 | [] => 0%nat end in
+      ETT (exact_regime (tt_prec c) (map (map (fun r => (r, @nil Z))) (tt_batches c)))
+          (map (fun j => (this (qsum (map (fun r => scale_q (tt_exp c) (nth j r 0)) rows)),
+                          this (qsum (map (fun r => sqq (scale_q (tt_exp c) (nth j r 0))) rows)))) (seq 0 S))
+  | KMI c =>
+      let rows := all_rows (mi_batches c) in
+      match rows with
+      | [] => EMI []
+      | r0 :: _ =>
+          let edges := map (scale_q (mi_exp c)) (mi_edges c) in
+          EMI (map (fun s => map (fun w =>
+                 let erows := map (fun r => (scale_q (mi_exp c) (nth s (fst r) 0), nth w (snd r) 0)) rows in
+                 map (fun b => map (fun k => Mia.hist_spec edges (mi_parts c) erows b k) (seq 0 (length (mi_parts c)))) (seq 0 (Mia.nbins edges)))
+                 (seq 0 (length (snd r0)))) (seq 0 (length (fst r0))))
+      end
   end.
